@@ -373,6 +373,9 @@ pub struct EncCfg {
   pub tags: bool,
   pub simples: bool,
   pub big_strings: bool,
+  /// strings whose length sits on a buffer-size boundary (255/256, 4096 k, 65536), with a multi-byte
+  /// character straddling the boundary
+  pub boundary_strings: bool,
 }
 
 impl EncCfg {
@@ -387,6 +390,7 @@ impl EncCfg {
       tags: r.chance(3, 4),
       simples: r.chance(3, 4),
       big_strings: r.chance(1, 8),
+      boundary_strings: r.chance(1, 10),
     }
   }
 }
@@ -440,7 +444,35 @@ const TEXT_ATOMS: &[&str] = &[
   "\u{7f}", "\u{80}", "\u{7ff}", "\u{800}", "\u{ffff}", "\u{10000}",
 ];
 
+const BOUNDARIES: &[usize] = &[24, 256, 4096, 8192, 12288, 16384];
+
+/// A text whose UTF-8 length is near a boundary B, with a 2-4 byte character placed so that it starts
+/// up to 3 bytes before a multiple of B (and so straddles it), padded with ASCII.
+fn boundary_text(r: &mut Rng) -> String {
+  let b = *r.pick(BOUNDARIES);
+  let total = b + r.below(60);
+  let mut s = String::with_capacity(total + 8);
+  let atom = *r.pick(&["é", "€", "😀", "水", "\u{7ff}", "\u{10ffff}"]);
+  let start = b.saturating_sub(r.range(1, atom.len().max(2) - 1));
+  while s.len() < start {
+    s.push(if r.chance(1, 50) { 'é' } else { 'a' });
+    if s.len() > start {
+      // overshot by a multi-byte filler: back off to ASCII
+      s.pop();
+      s.push('a');
+    }
+  }
+  s.push_str(atom);
+  while s.len() < total {
+    s.push('b');
+  }
+  s
+}
+
 fn gen_text(r: &mut Rng, cfg: &EncCfg) -> String {
+  if cfg.boundary_strings && r.chance(1, 5) {
+    return boundary_text(r);
+  }
   let n = if cfg.big_strings && r.chance(1, 4) { r.range(20, 300) } else { r.below(7) };
   let mut s = String::new();
   for _ in 0..n {
@@ -450,6 +482,11 @@ fn gen_text(r: &mut Rng, cfg: &EncCfg) -> String {
 }
 
 fn gen_bytes(r: &mut Rng, cfg: &EncCfg) -> Vec<u8> {
+  if cfg.boundary_strings && r.chance(1, 5) {
+    let b = *r.pick(BOUNDARIES);
+    let n = (b + r.below(5)).saturating_sub(2);
+    return (0..n).map(|i| (i % 251) as u8).collect();
+  }
   let n = if cfg.big_strings && r.chance(1, 4) { r.range(20, 300) } else { r.below(7) };
   (0..n).map(|_| if r.chance(1, 4) { *r.pick(&[0u8, 0xff, 0x5f, 0x7f, 0x9f, 0xbf, 0xf8, 0x1c]) } else { r.byte() }).collect()
 }
